@@ -313,6 +313,33 @@ pub fn shapes() -> Vec<ProgCase> {
         out.push(mk(format!("memory_dominated/{k}"), format!("begin {body} end"), vec![], vec!["stack", "memory", "range"]));
     }
     out.extend(regime_search());
+    // memory accessed in more than one execution context: the sorted memory trace then has rows where the
+    // context changes (first access of the later context a read / a write, of the same / a higher / a
+    // lower address than the last row of the earlier context, that row holding zeros or not; callee locals
+    // vs absolute addresses; nested calls; a syscall - root-context memory - from a called procedure; dyncall)
+    let k5 = "export.k mem_load.5 drop end";
+    for (name, src, kernel) in [
+        ("read_read", "proc.f mem_load.5 drop end begin mem_load.3 drop call.f end", None),
+        ("write_read", "proc.f mem_load.5 drop end begin push.9 mem_store.3 call.f end", None),
+        ("zero_write_read_same", "proc.f mem_load.3 drop end begin push.0 mem_store.3 call.f end", None),
+        ("read_write", "proc.f push.9 mem_store.5 end begin mem_load.3 drop call.f end", None),
+        ("write_write_same", "proc.f push.8 mem_store.3 mem_load.3 drop end begin push.9 mem_store.3 call.f mem_load.3 drop end", None),
+        ("read_read_same", "proc.f mem_load.3 drop end begin mem_load.3 drop call.f end", None),
+        ("address_decreases", "proc.f mem_load.1 drop end begin mem_load.4294967295 drop call.f end", None),
+        ("address_decreases_write", "proc.f push.9 mem_store.0 end begin push.7 mem_store.1000 call.f end", None),
+        ("callee_locals", "proc.f.2 loc_load.1 drop push.4 loc_store.0 end begin mem_load.3 drop call.f end", None),
+        ("nested", "proc.g mem_load.2 drop end proc.f mem_load.9 drop call.g mem_load.9 drop end begin mem_load.3 drop call.f mem_load.3 drop end", None),
+        ("two_callees", "proc.g mem_load.2 drop end proc.f push.6 mem_store.9 end begin call.f call.g call.f end", None),
+        ("syscall_from_callee", "proc.f mem_load.7 drop syscall.k end begin mem_load.3 drop call.f end", Some(k5)),
+        ("dyncall", "proc.f mem_load.5 drop end begin mem_load.3 drop procref.f dyncall dropw end", None),
+        ("word_ops", "proc.f padw mem_loadw.5 dropw push.1.2.3.4 mem_storew.6 dropw end begin push.5.6.7.8 mem_storew.3 dropw call.f padw mem_loadw.3 dropw end", None),
+    ] {
+        for r in [0usize, 2] {
+            let mut c = mk(format!("memctx/{name}/in{}", [0, 16, 17, 20][r]), src.to_string(), input_regime(r), vec!["stack", "memory", "range"]);
+            c.kernel = kernel.map(String::from);
+            out.push(c);
+        }
+    }
     for k in [7usize, 8, 15, 16, 17] {
         let body: String = (0..k).map(|i| format!("push.{} push.{} u32and drop ", 4000000000u64 - i as u64, 123456789 + i)).collect();
         out.push(mk(format!("bitwise_dominated/{k}"), format!("begin {body} end"), vec![], vec!["stack", "bitwise"]));
